@@ -51,7 +51,11 @@ def relloc(code, line):
 
 
 class Policy:
-    """kind: serial | opgran | walk | rr | pct | sites | explicit"""
+    """kind: serial | opgran | walk | rr | pct | sites | parkop | explicit
+
+    parkop: when the running thread reaches a shared-state site it is parked there while another thread runs
+    one *whole* operation (to its next op boundary), then it resumes: "the other thread's call falls entirely
+    inside my window", for every window."""
 
     def __init__(self, kind="serial", rng=None, p=0.1, q=50, d=2, est=2000,
                  sites=None, order=None, explicit=None, domain="line"):
@@ -69,6 +73,8 @@ class Policy:
         self.domain = domain
         self.prio = None
         self.change = None
+        self.host = None    # parkop: thread parked at a site
+        self.guest = None   # parkop: thread running one whole op meanwhile
 
     def needs_events(self):
         if self.kind in ("serial", "opgran"):
@@ -80,7 +86,7 @@ class Policy:
 
     def describe(self):
         d = {"kind": self.kind}
-        if self.kind in ("walk", "sites", "opgran"):
+        if self.kind in ("walk", "sites", "opgran", "parkop"):
             d["p"] = self.p
         if self.kind == "rr":
             d["q"] = self.q
@@ -171,6 +177,17 @@ class Policy:
                     if t != k and not sched.finished[t]:
                         return t
             return None
+        if kd == "parkop":
+            if self.guest is not None:
+                if k == self.guest and kind == K_OP:
+                    h, self.host, self.guest = self.host, None, None
+                    if h is not None and not sched.finished[h]:
+                        return h
+                return None
+            if kind == K_LINE and loc in self.sites and self.rng.random() < self.p:
+                self.host, self.guest = k, others[self.rng.randrange(len(others))]
+                return self.guest
+            return None
         if kd == "sites":
             if kind == K_LINE and loc in self.sites and self.rng.random() < self.p:
                 return others[self.rng.randrange(len(others))]
@@ -191,6 +208,11 @@ class Policy:
         if not others:
             return None
         kd = self.kind
+        if kd == "parkop":
+            h, g = self.host, self.guest
+            self.host, self.guest = None, None
+            if g == k and h is not None and not sched.finished[h]:
+                return h
         if kd == "explicit":
             return self._explicit_next(sched, K_FIN, k)
         if kd == "serial":
